@@ -96,7 +96,7 @@ theorem parameter_gen (env : Env) (F D : Nat) (p : PItemG) (hok : p.OK env F D)
       injection h1 with h1
       subst h1; subst h2
       exact ⟨t3 :: os, p.name, bops, .cons ht3 hrest2, by simp [tvs, hty3, hty2, hv3, hv2], htn, hnt, rfl⟩
-  obtain ⟨w4, t4, hi4, hs4, ht4, hty4, hv4⟩ := hpre w3 ops' bops' bmid nm' hmapeq hy' htn' hnt'
+  obtain ⟨w4, t4, hi4, hs4, ht4, hty4, hv4⟩ := hpre w3 ops' bops' bmid nm' hmapeq hy' htn' (by rw [hnt']; decide)
   obtain ⟨w5, t5, hi5, hs5, ht5, hty5, hv5⟩ := step_tokenIf_miss env ["ELLIPSIS"] w4 t4 bmid ht4 (by rw [hty4, hnt']; decide)
   obtain ⟨w6, t6, hi6, hs6, ht6, hty6, hv6⟩ := step_tokenIf_miss env ["("] w5 t5 bmid ht5 (by rw [hty5, hty4, hnt']; decide)
   obtain ⟨w7, c7, hi7, hb7, hs7, _, hv7⟩ := step_tokenIf_hit env ["NAME", "final"] w6 t6 bmid ht6 (by rw [hty6, hty5, hty4, hnt']; decide)
